@@ -2803,6 +2803,18 @@ def C13_rules(ctx, rule="K"):
                 skip = skip + (lr_["header"],)
             if bx.kind == "closure":
                 us_ = fl.closure_uses(bx)
+                # ... nor the loops of the enclosing body around the walk the closure is handed to (the worklist loop)
+                for (ub_, ubb_, ut_, ai_) in us_:
+                    skip2 = ()
+                    for depth2 in range(3):
+                        lr2 = loop_region(ctx, ub_, ubb_, skip_headers=skip2, extra_drivers=POP_DRIVERS)
+                        if lr2 is None:
+                            break
+                        ctx.check(not lr2["early_exits"], rule + "4", "walk-complete|%s|outer%d" % (short(ub_.id), depth2), m.where(ub_, lr2["next_bb"]),
+                                  "the loop around the children walk runs until its source is exhausted (the queue is drained)",
+                                  "the loop around the children walk can be left early (%s): raises still waiting in the queue are dropped, descendants keep stale ranks" % (
+                                      ["bb%d->bb%d" % e_ for e_ in lr2["early_exits"]][:3]))
+                        skip2 = skip2 + (lr2["header"],)
                 drv = [callee_path(u[2]) or "?" for u in us_]
                 ctx.check(bool(us_) and all(d in ("std::iter::Iterator::for_each", "std::iter::Iterator::fold") or d in fb.bodies for d in drv),
                           rule + "4", "walk-driver|%s" % short(bx.id), m.where(bx),
